@@ -29,90 +29,16 @@ def decorated(f):
 
 
 def protocol(P, R):
-    """Shape of the decorator and of the context manager (typestate)."""
-    w = P.func('dd.bdd._try_to_reorder._wrapper')
-    q = w.qualname
-    params = w.params
-    mgr = params[0] if params else 'bdd'
-    state = 0
-    problems = []
-    # a try/finally is read as its body followed by its final block
-    flat = []
-    for s in w.node.body:
-        if isinstance(s, ast.Try) and s.finalbody and not s.handlers:
-            flat.extend(s.body)
-            flat.extend(s.finalbody)
-        else:
-            flat.append(s)
-    for s in flat:
-        calls = [au.call_name(c) for c in au.calls_in(s)]
-        in_ctx = isinstance(s, ast.With) and any(
-            au.call_name(it.context_expr) == '_ReorderingContext'
-            for it in s.items)
-        if 'func' in calls:
-            if not in_ctx:
-                problems.append(
-                    f'an attempt `{au.short(s, 50)}` runs outside '
-                    '_ReorderingContext: nested decorated calls serve '
-                    'requests themselves and collect live intermediates')
-            if state == 0:
-                state = 1
-            elif state == 2:
-                problems.append('the retry runs before reordering')
-            elif state == 3:
-                state = 4
-            continue
-        if isinstance(s, ast.Assign) and au.chain(s.targets[0]) == [
-                mgr, '_last_len']:
-            none = isinstance(s.value, ast.Constant) and \
-                s.value.value is None
-            if none and state == 1:
-                state = 2
-            elif none and state >= 4:
-                problems.append('reordering is left disabled after the '
-                                'retry (`_last_len = None`)')
-            elif not none and state == 4:
-                state = 5
-            elif not none and state in (1, 2, 3):
-                problems.append('requests are re-armed before the retry '
-                                'finished: the retry can raise the '
-                                'reordering signal again')
-            continue
-        if 'reorder' in calls:
-            if state == 2:
-                state = 3
-            else:
-                problems.append(
-                    'reorder() is called while reordering requests are '
-                    'still enabled (no `_last_len = None` before it): '
-                    'swap itself raises the reordering signal')
-            continue
-        if isinstance(s, ast.Return):
-            if state != 5:
-                problems.append(
-                    'the wrapper returns without re-arming `_last_len` '
-                    'after the retry: dynamic reordering stays disabled')
-    attempts = [c for st in flat for c in au.calls_in(st, 'func')]
-    if len(attempts) == 2:
-        sig = [([au.src(a) for a in c.args],
-                [(k.arg, au.src(k.value)) for k in c.keywords])
-               for c in attempts]
-        if sig[0] != sig[1]:
-            problems.append(
-                f'the retry `{au.short(attempts[1], 50)}` does not pass '
-                f'the same arguments as the first attempt '
-                f'`{au.short(attempts[0], 50)}`: after a reordering the '
-                'operation is repeated with other arguments')
-    if state < 5 and not problems:
-        problems.append('the retry protocol is incomplete '
-                        f'(reached state {state} of 5)')
-    if problems:
-        R.violation('R-REORD', 'protocol', q, 'wrapper',
-                    '; '.join(problems), unit=w.unit.rel, line=w.lineno)
-    else:
-        R.holds('R-REORD', q, 'first attempt in context -> disable '
-                'requests -> reorder -> retry in context -> re-arm -> '
-                'return')
+    """The retry protocol of the decorator: decided on the wrapper model
+    (rules/models.py), whatever the wrapper is built from (the context
+    manager class, an explicit try / except / finally)."""
+    from . import models
+    models.wrapper_model(P, R)
+    if P.func('dd.bdd._ReorderingContext.__enter__',
+              required=False) is None or P.func(
+                  'dd.bdd._ReorderingContext.__exit__',
+                  required=False) is None:
+        return
     # context manager: interpreted over every state of a small model
     # (ddverif/interp.py) - how its conditions are written does not matter
     from .. import interp
